@@ -413,3 +413,51 @@ def register(_reg, _mt, STD):  # noqa: ANN001
     _extend('C10', [unions.rule_c12_r5])
     _extend('C15', [classes_rules.rule_c17_r6])
     _extend('C20', [rename.rule_c20_r6, rename.rule_c20_r7, round5.rule_style_guard_agrees])
+    # round 10: rules that are necessary conditions of a sibling property as well
+    for pid_ in ('C01', 'C05'):
+        _extend(pid_, [round5.rule_value_or_list_records_member])      # which member matched is recorded, not re-derived from the value
+    _extend('C01', [gates.rule_c02_r2])
+    _extend('C09', [gates.rule_c02_r2])
+    for pid_ in ('C04', 'C08', 'C13'):
+        _extend(pid_, [forwarding.rule_c19_r2])
+    for pid_ in ('C04', 'C08', 'C11'):
+        _extend(pid_, [forwarding.rule_c19_r3])
+    for pid_ in ('C11', 'C12', 'C15'):
+        _extend(pid_, [forwarding.rule_io_passes_documents_through])
+    _extend('C05', [extra.rule_dump_options_closed, round5.rule_format_options_only_forwarded])
+    _extend('C07', [forwarding.rule_c18_r2])
+    _extend('C11', [round5.rule_conversion_result_used, gates.rule_c09_r3])
+    _extend('C12', [forwarding.rule_c18_r3])
+    _extend('C13', [extra.rule_keycache_keepalive])
+    _extend('C14', [round5.rule_converter_cache_keyed_by_identity, classes_rules.rule_c16_r5])
+    for pid_ in ('C17', 'C18'):
+        _extend(pid_, [construction.rule_c14_r2])
+    _extend('C17', [round5.rule_field_settings_copied])
+    _extend('C18', [round5.rule_array_element_type_as_declared])
+    _extend('C19', [round5.rule_value_or_list_writer])
+    _extend('C20', [round5.rule_in_names_is_a_tuple])
+    # round 10: new rules
+    from .rules import round10
+    for pid_ in ('C01', 'C06'):
+        _extend(pid_, [round10.rule_array_constructor_infers_dtype])
+    for pid_ in ('C03', 'C04', 'C08', 'C10'):
+        _extend(pid_, [round10.rule_error_nodes_are_plain_records])
+    for pid_ in ('C14', 'C03'):
+        _extend(pid_, [round10.rule_init_binds_given_keywords])
+    _extend('C04', [round10.rule_dtype_catchall_by_identity])
+    for pid_ in ('C19', 'C05'):
+        _extend(pid_, [round10.rule_dtype_rows_accept_zero])
+    for pid_ in ('C05', 'C02'):
+        _extend(pid_, [round10.rule_type_union_keeps_members])
+    _extend('C08', [round10.rule_renderers_do_not_compare_values])
+    for pid_ in ('C12', 'C13', 'C17'):
+        _extend(pid_, [round10.rule_type_hints_keep_extras])
+    for pid_ in ('C15', 'C02', 'C05'):
+        _extend(pid_, [round10.rule_no_container_registration])
+    _extend('C16', [round10.rule_own_dataclasses_use_generated_comparisons])
+    for pid_ in ('C17', 'C18'):
+        _extend(pid_, [round10.rule_substitution_resubscripts])
+    for pid_ in ('C20', 'C15'):
+        _extend(pid_, [round10.rule_names_compared_exactly])
+    _extend('C15', [unions.rule_c11_r2])
+    _extend('C08', [round10.rule_unexpected_keys_only_formatted])
